@@ -69,11 +69,14 @@ def parse (v : List Char) : Option Parsed :=
       | _ => none
   | _ => none
 
+/-- parse of `"v" ++ s` -/
+def parseNoV (s : String) : Option Parsed := parse ('v' :: s.toList)
+
 def isValid (v : String) : Bool := (parse v.toList).isSome
 
 /-- `Version.UnmarshalYAML` on a YAML string scalar `vs`: error text or the stored version -/
 def decodeVersion (vs : String) : Except String String :=
-  if isValid ("v" ++ vs) then .ok vs
+  if (parseNoV vs).isSome then .ok vs
   else .error "version must follow the semver scheme, and it must not be prefixed by \"v\", see https://semver.org/"
 
 /-- the validator's decision on parsed versions: `none` = accepted, `some msg` = rejected -/
@@ -97,11 +100,11 @@ def validateVersion (build : String) (given : Option String) : Errs :=
   match given with
   | none => []
   | some g =>
-    match parse ("v" ++ build).toList with
+    match parseNoV build with
     | none => []
     | some b =>
-      let gN := if g.toList.head? = some 'v' then g else "v" ++ g
-      match gate b (parse gN.toList) with
+      let gP := if g.toList.head? = some 'v' then parse g.toList else parseNoV g
+      match gate b gP with
       | none => []
       | some msg => ["version: current: v" ++ build ++ ", given: " ++ g ++ ": " ++ msg]
 
